@@ -1209,7 +1209,7 @@ def gen_cases(ck, info):
                 cases.append(c)
     # ---- malformed callbacks and unnatural result counts
     base = [c for c in cases if prescription(c) is not None and not c.get("same_cb")]
-    for _ in range(ck.pick(240, 2000)):
+    for _ in range(ck.pick(480 if getattr(ck, "c19_escalated", False) else 240, 2000)):
         c = dict(rng.choice(base))
         roles = list(c["cbs"])
         cbs = {r: dict(c["cbs"][r]) for r in roles}
@@ -1546,7 +1546,8 @@ def run_nested(ck: core.Check, env: Env):
              "pairs": {}, "unobservable": {}}
     if not mods:
         return stats
-    progs = nest.gen_programs(rng, P, mods, ck.pick(45, 600), ck.pick(15, 250))
+    esc = getattr(ck, "c19_escalated", False)
+    progs = nest.gen_programs(rng, P, mods, ck.pick(150 if esc else 45, 600), ck.pick(50 if esc else 15, 250))
     try:
         models = ck.driver().ask_many("C19", [nest.model_request(p_, nest.STEPS) for p_ in progs])
     except Exception as e:  # noqa: BLE001
@@ -1627,6 +1628,21 @@ def run(ck: core.Check):
             ck.broken("callgraph", f"stored callback reachable: {sink}", " -> ".join(path))
     except Exception as e:  # noqa: BLE001
         ck.broken("translator", "C19 call graph extraction", f"{type(e).__name__}: {e}\n{core.fmt_exc()}")
+    # change-triggered escalation (tie G): normalised-AST hashes of the covered functions vs the validated tree
+    try:
+        from harness import lib_c19_sources
+
+        _cur, diff = lib_c19_sources.changed()
+    except Exception as e:  # noqa: BLE001
+        diff = [f"<hash extraction failed: {type(e).__name__}>"]
+    ck.c19_escalated = bool(diff)
+    ck.cov["source_changes_vs_validated_tree"] = diff[:60]
+    if diff:
+        ck.log(f"covered sources differ from the validated tree ({len(diff)} entries, e.g. {diff[:3]}): larger counts")
+    inv = info.get("inventory", {})
+    for p in inv.get("problems", []):
+        ck.broken("translator", "C19 constructor inventory", p)
+    ck.cov["constructor_inventory"] = {"callable_params": inv.get("callableParams"), "attr_wiring": inv.get("attrWiring")}
     ck.cov["generated_specs"] = {f"{m}.{c}": s["subgraphs"] for m, f in info["modules"].items() for c, s in f.items()}
     ck.cov["callback_sites"] = info["sites"]
     ck.lean(["SpoxModel.Props.C19"], audit="SpoxModel.Audit.C19")
@@ -1654,7 +1670,7 @@ def _run(ck: core.Check, env: Env, info):
     info = dict(info, resolves=resolves)
     cases = gen_cases(ck, info)
     # which cases also get the later steps (builds, inference, value propagation)
-    n_steps = ck.pick(420, 2800)
+    n_steps = ck.pick(840 if getattr(ck, "c19_escalated", False) else 420, 2800)
     idx = list(range(len(cases)))
     def steppable(c):
         ds = [d for v in c.get("lists", {}).values() for d in v] + list(c.get("singles", {}).values())
